@@ -429,6 +429,8 @@ pub struct Outcome {
     pub stderr: Vec<u8>,
     pub input_left: usize,
     pub ticks: u64,
+    /// iterations of the debugger's own loop (hook H6)
+    pub inner_ticks: u64,
     pub execs: u64,
     pub fin: Option<Snapshot>,
 }
@@ -495,6 +497,7 @@ pub fn run_session(load: Load, spec: RunSpec) -> Session {
                     stderr,
                     input_left,
                     ticks: 0,
+                    inner_ticks: 0,
                     execs: 0,
                     fin: None,
                 });
@@ -506,6 +509,7 @@ pub fn run_session(load: Load, spec: RunSpec) -> Session {
             lace::verif::set_fuel(Some(spec.fuel));
             let (_, stop) = guarded(|| env.run());
             let ticks = lace::verif::ticks();
+            let inner_ticks = lace::verif::inner_ticks();
             let execs = lace::verif::execs();
             lace::verif::set_fuel(None);
             let (stdout, stderr, input_left) = io_end();
@@ -515,6 +519,7 @@ pub fn run_session(load: Load, spec: RunSpec) -> Session {
                 stderr,
                 input_left,
                 ticks,
+                inner_ticks,
                 execs,
                 fin: Some(Snapshot::of(&env)),
             });
@@ -539,6 +544,7 @@ pub fn run_session(load: Load, spec: RunSpec) -> Session {
                 stderr: vec![],
                 input_left: 0,
                 ticks: 0,
+                inner_ticks: 0,
                 execs: 0,
                 fin: None,
             }),
